@@ -53,6 +53,7 @@ package balanced
 import (
 	"errors"
 
+	dag "github.com/ipfs/boxo/ipld/merkledag"
 	ft "github.com/ipfs/boxo/ipld/unixfs"
 	h "github.com/ipfs/boxo/ipld/unixfs/importer/helpers"
 	ipld "github.com/ipfs/go-ipld-format"
@@ -146,6 +147,17 @@ func Layout(db *h.DagBuilderHelper) (ipld.Node, error) {
 	}
 
 	if db.HasFileAttributes() {
+		if raw, ok := root.(*dag.RawNode); ok {
+			// A raw leaf cannot carry mode or mtime: make it the only
+			// child of a UnixFS file node (as the trickle layout does).
+			parent := db.NewFSNodeOverDag(ft.TFile)
+			if err = parent.AddChild(raw, uint64(len(raw.RawData())), db); err != nil {
+				return nil, err
+			}
+			if root, err = parent.Commit(); err != nil {
+				return nil, err
+			}
+		}
 		err = db.SetFileAttributes(root)
 		if err != nil {
 			return nil, err
